@@ -107,12 +107,31 @@ func setObs(set entities.Set) string {
 	return fmt.Sprintf("%s %d %s %d %s %s", setTypeTok(set.GetSetType()), set.GetSetLength(), hexs(set.GetHeaderBuffer()), set.GetNumberOfRecords(), rs, msg)
 }
 
+var (
+	bldKept    []entities.Record
+	bldKeptTok string
+)
+
+// recsTok renders a list of records taken out of a set (nil entries included)
+func recsTok(rs []entities.Record) string {
+	var out []string
+	for _, r := range rs {
+		if r == nil {
+			out = append(out, "nil")
+			continue
+		}
+		out = append(out, fmt.Sprintf("%d:%d:%d:%s", r.GetTemplateID(), r.GetFieldCount(), r.GetRecordLength(), hexs(r.GetBuffer())))
+	}
+	return strings.Join(out, ";")
+}
+
 func engBld(a []string) string {
 	if len(a) == 0 {
 		return "bad-op"
 	}
 	if a[0] == "new" {
 		bldSet = entities.NewSet(false)
+		bldKept, bldKeptTok = nil, ""
 		return "ok"
 	}
 	if bldSet == nil {
@@ -150,10 +169,18 @@ func engBld(a []string) string {
 		bldSet.UpdateLenInHeader()
 		return "ok"
 	case "reset":
+		// what a caller took out of the set before the reset (the list of records of the message it built) must
+		// be left alone by the reset and by whatever the set is used for afterwards, as it is with a new set
+		bldKept = bldSet.GetRecords()
+		bldKeptTok = recsTok(bldKept)
 		bldSet.ResetSet()
 		return "ok"
 	case "obs":
-		return setObs(bldSet)
+		o := setObs(bldSet)
+		if bldKept != nil && recsTok(bldKept) != bldKeptTok {
+			o += " retained-records-changed"
+		}
+		return o
 	}
 	return "bad-op"
 }
